@@ -110,7 +110,8 @@ def run(rep, tier):
                 rule_output_range(rep, m, f, dd, cname)
         rule_strlen_sub(rep, m, cname)
         rule_param_extent(rep, m, cname)
-        widths.rule(rep, "C12.D8", m, cname)
+        lri = repo.lower(b, inline_internal=True, **kw)
+        widths.rule(rep, "C12.D8", ir.Module.load(lri.json), cname, inlined=True)
     control_d6(rep)
     widths.control(rep, "C12.D8")
     rep.floor("C12.D1", 2000)
